@@ -281,7 +281,19 @@ def inject(doc, defect, pick):
         bad = choose(["1a", "a-b", "a b", "", "a.b", 5, "é", "a+", nm + "\n", "\n" + nm, nm + " ", " " + nm, nm + "\t", nm + "\r",
                       nm + "-", "9" + nm, nm + "\u00e9", nm + "\n\n", nm + "."])
         soft = [k for k, v in mods.items() if isinstance(v, dict) and "area" in v]
-        if soft and next(p) % 3 == 0 and isinstance(bad, str):
+        site = next(p) % 4
+        if site == 3 and next(p) % 2:
+            bad = "#"  # (the blockage mark of dies: not a name)
+        if site == 3 and isinstance(bad, str):
+            # ... or the name of the region of a rectangle of a soft module (the optional fifth field)
+            k = some(lambda d: "area" in d and d.get("rectangles"), lambda: ("Zsoft", {"area": 4, "rectangles": [[1, 1, 2, 2]]}))
+            rl = mods[k]["rectangles"]
+            if rl and not isinstance(rl[0], list):
+                rl = mods[k]["rectangles"] = [rl]
+            r = choose(rl)
+            r[4:] = [bad if bad not in ("", "\n" + nm) else "dsp\n"]
+            return
+        if soft and site == 0 and isinstance(bad, str):
             # ... or the name of a region (key of a per-region area)
             k = choose(soft)
             a = mods[k]["area"]
